@@ -290,7 +290,7 @@ static int extra_modes(const WorkerOpts &o, Stats &stats) {
       rr.counters["single_soft_faults"] = n;
       rr.counters["write_calls"] = (long long)p.sizes.size();
       rr.nontrivial = true;
-    }, 300);
+    }, 900);
     if (r.fail) {
       size_t p = r.msg.find("#REPRO\n");
       std::string repro = p == std::string::npos ? base.ser() : r.msg.substr(p + 7);
